@@ -44,3 +44,18 @@ pub fn settle(max_turns: usize) -> bool {
     }
     !tv::any_runnable()
 }
+
+/// PROBE (session 4, not registered unless it finishes): the real job task, one `start()`, executor turns
+/// until nothing is runnable: exactly one child spawned, the ticket resolved.
+#[kani::proof]
+#[kani::unwind(6)]
+pub fn task_probe_start() {
+    let job = new_job();
+    let t = job.start();
+    let settled = settle(4);
+    assert!(settled, "VERIF-BOUND: executor turn budget exhausted");
+    assert!(pw::world().n_spawned() == 1, "C09: start on an idle job did not spawn exactly one process");
+    kani::cover!(true, "task ran");
+    std::mem::forget(t);
+    std::mem::forget(job);
+}
